@@ -172,6 +172,24 @@ def corpus(features=()):
                         bad=guard_prelude + helper + "fn main() { need_sync::<%s>(); }\n" % ty,
                         good=guard_prelude + uses_world))
     out.append(dict(name="world_moved_to_thread__send_not_sync_vs_sync_not_send_component", family="trait", bad=guard_prelude + moved, good=cell_prelude + moved))
+    # reference conversions between handle types (transmutes over repr(transparent) inside the library): the result must not
+    # outlive its source, two exclusive results must not coexist
+    for src, dst, nm in (("Entity<ArchFoo>", "EntityAny", "entity"), ("EntityDirect<ArchFoo>", "EntityDirectAny", "direct")):
+        mk = "world.arch_foo.entities()[0]" if nm == "entity" else "world.to_direct(e).unwrap()"
+        out.append(dict(name="ref_conversion_%s__outlives_local" % nm, family="borrow",
+                        bad=PRELUDE + "fn leak() -> &'static %s { let mut world = EcsWorld::new(); let e = world.create::<ArchFoo>((CompA(1), CompB(2))); let h: %s = %s; let r: &%s = (&h).into(); r }\nfn main() { let _ = leak(); }\n" % (dst, src, mk, dst),
+                        good=PRELUDE + "fn keep() -> %s { let mut world = EcsWorld::new(); let e = world.create::<ArchFoo>((CompA(1), CompB(2))); let h: %s = %s; let r: &%s = (&h).into(); *r }\nfn main() { let _ = keep(); }\n" % (dst, src, mk, dst)))
+        out.append(dict(name="ref_conversion_%s__two_exclusive" % nm, family="borrow",
+                        bad=prog("    let mut h: %s = %s;\n    let a: &mut %s = (&mut h).into();\n    let b: &mut %s = (&mut h).into();\n    *a = *b;\n" % (src, mk, dst, dst)),
+                        good=prog("    let mut h: %s = %s;\n    let a: &mut %s = (&mut h).into();\n    let c = *a;\n    let b: &mut %s = (&mut h).into();\n    *b = c;\n" % (src, mk, dst, dst))))
+    # a converted reference to an element of entities() kept across a structural change
+    out.append(dict(name="ref_conversion_entities_element__destroy", family="borrow",
+                    bad=prog("    let r: &EntityAny = (&world.arch_foo.entities()[0]).into();\n    world.destroy(e2);\n    let _ = r.archetype_id();\n"),
+                    good=prog("    let r: &EntityAny = (&world.arch_foo.entities()[0]).into();\n    let _ = r.archetype_id();\n    world.destroy(e2);\n")))
+    # the same through a query parameter: the converted reference must not escape the closure
+    out.append(dict(name="ref_conversion_query_param__escapes", family="borrow",
+                    bad=prog("    let mut out: Option<&EntityAny> = None;\n    ecs_iter!(world, |h: &Entity<ArchFoo>| { out = Some(h.into()); });\n    world.destroy(e2);\n    let _ = out.map(|r| r.archetype_id());\n"),
+                    good=prog("    let mut out: Option<EntityAny> = None;\n    ecs_iter!(world, |h: &Entity<ArchFoo>| { let r: &EntityAny = h.into(); out = Some(*r); });\n    world.destroy(e2);\n    let _ = out.map(|r| r.archetype_id());\n")))
     # the helper types: a runtime-checked Borrow (it reads the RefCell flags of a world that stays usable in the parent thread)
     # must not cross a thread boundary; an exclusive View may, exactly when its components are Send
     out.append(dict(name="borrow_sent_to_thread", family="trait",
